@@ -19,7 +19,7 @@ EXPLANATION = (
     "name, operand, '>>' iff is_jump_target, line number iff starts_line); sys.stdout and sys.stderr captured during the call "
     "stay empty (the listing goes to the given stream only). repr/format of symbolic ints is left real here (text is the subject).")
 BOUNDS = {"quick": "tables 2.7, 3.6, 3.9, 3.11, 3.12, 3.13; every defined opcode; formats classic (context 0) and extended-bytes "
-                   "(context 2); operand 0..5 within validity; windows of <= 5 instructions + cache slots; header/xasm via disco on "
+                   "(context 6); operand 0..5 within validity (0..2 for variable-pop opcodes under the stack-simulating formats); windows of <= 5 instructions + cache slots; header/xasm via disco on "
                    "one window per table",
           "thorough": "all tables; formats classic, bytes, extended, extended-bytes, each with contexts 0 and 2; operand 0..9"}
 OUTSIDE = ["whole real programs: totality is claimed over the bounded instruction windows only",
@@ -32,7 +32,7 @@ FUNCS = ["xdis.disasm.disco", "xdis.disasm.disco_loop", "xdis.disasm.disco_loop_
 
 VARNAMES = ("a", "b", "c", "d", "e", "f")
 NAMES = ("n0", "n1", "n2", "n3", "n4", "n5")
-CONSTS = (10, "k", None, 3, 4, 5)
+CONSTS = (10, "k", None, 3, 4, ("a",))   # the last one is what CALL_FUNCTION_KW-style opcodes expect on top
 CELLS = ("b", "x")
 FREES = ("fr",)
 
@@ -79,13 +79,16 @@ def make_code(opc, items, tracing=True):
 
 def check_listing(text, stream, fmt, opc):
     """parse the classic/bytes listing back and compare with the instruction stream"""
-    want = [i for i in stream if not (i.opname == "CACHE" and fmt not in ("bytes", "extended-bytes"))]
+    # the statement is about non-CACHE instructions; whether CACHE slots are shown is left to the format
+    want = [i for i in stream if i.opname != "CACHE"]
     got = []
     for ln in text.split("\n"):
         if not ln.strip() or ln.startswith("#"):
             continue
         m = LINE_RE.match(ln)
         assert m is not None, "unparsable listing line %r" % (ln,)
+        if m.group(6) == "CACHE":
+            continue
         got.append((m, ln))
     assert len(got) == len(want), "listing has %d instruction lines, stream has %d: %r" % (len(got), len(want), text)
     for (m, ln), ins in zip(got, want):
@@ -108,8 +111,21 @@ def make_ob(tname, opc, op, ctx, fmt, hi, tier):
     params = [("x", (0, hi if has_arg else 0))]
     localsplus = VARNAMES + tuple(c for c in CELLS if c not in VARNAMES) + FREES
 
+    name = opc.opname[op]
+
     def run(x, tracing):
         import xdis.bytecode as B
+        # operands the interpreter itself does not accept (valid bytecode never carries them)
+        if name == "RAISE_VARARGS" and not (x <= (3 if vt < (3, 0) else 2)):
+            return None
+        if name == "BUILD_SLICE" and not (x == 2 or x == 3):
+            return None
+        # the context's top of stack is the 1-tuple ("a",): the operand of the opcodes that consume a key/keyword-name
+        # tuple must be consistent with it, as in compiler output
+        if ctx and name == "BUILD_CONST_KEY_MAP" and not (x == 1):
+            return None
+        if ctx and name in ("CALL_FUNCTION_KW", "CALL_KW") and not (x >= 1):
+            return None
         items, off = build_items(opc, op, ctx, x)
         if use_src:
             try:
@@ -164,7 +180,7 @@ def disco_ob(tname, opc, fmt, tier):
     """whole-module entry point incl. header and nested code object queue"""
     vt = tuple(opc.version_tuple[:2])
     load = _pick(opc, ["LOAD_CONST"])
-    params = [("x", (0, 3)), ("ts", (0, 2 ** 32 - 1))]
+    params = [("x", (0, 3)), ("ts", (1, 3))]   # the header renders the timestamp through datetime (C code: realised)
 
     def run(x, ts, tracing):
         import xdis.disasm as D
@@ -210,7 +226,7 @@ def disco_ob(tname, opc, fmt, tier):
     return Ob(id="C12.%s.disco.%s" % (tshort(tname), fmt), prop="C12", params=params, body=body, replay=replay, funcs=FUNCS,
               opaque_repr=True, region="%s.disco.%s" % (tshort(tname), fmt),
               skeleton="disasm.disco on a module with one nested code object, table=%s format=%s" % (tname, fmt),
-              bound="operand 0..3, timestamp 32 bits", timeout=90, oracle="total + clean")
+              bound="operand 0..3, timestamp 1..3", timeout=90, oracle="total + clean")
 
 
 C12_TABLES = ["opcode_27", "opcode_36", "opcode_39", "opcode_311", "opcode_312", "opcode_313"]
@@ -231,14 +247,21 @@ def generate(tier, seed):
         for op in defined_ops(opc):
             if opc.opname[op] == "EXTENDED_ARG":
                 continue
+            # the extended formatter simulates the operand stack: give it a stack deep enough for what the
+            # instruction pops (6 constant loads; variable-pop instructions get operands <= 2), as valid code has
             if tier == "quick":
-                combos = [(0, "classic"), (2, "extended-bytes")]
+                combos = [(0, "classic"), (6, "extended-bytes")]
                 hi = 5
             else:
-                combos = [(c, f) for c in (0, 2) for f in ("classic", "bytes", "extended", "extended-bytes")]
+                combos = [(c, f) for c in (0, 6) for f in ("classic", "bytes", "extended", "extended-bytes")]
                 hi = 9
+            special = set(getattr(opc, "opcode_extended_fmt", {})) | set(getattr(opc, "opcode_arg_fmt", {}))
             for ctx, fmt in combos:
-                obs.append(make_ob(tname, opc, op, ctx, fmt, hi, tier))
+                if tier == "quick" and fmt.startswith("extended") and opc.opname[op] not in special \
+                        and op not in opc.nullaryloadop and opc.opname[op] not in ("POP_TOP", "RETURN_VALUE", "JUMP_FORWARD"):
+                    continue   # no opcode-specific formatter: same generic path as the representatives kept
+                h = 2 if (fmt.startswith("extended") and opc.oppop[op] < 0) else hi
+                obs.append(make_ob(tname, opc, op, ctx, fmt, h, tier))
         for fmt in ("classic", "xasm", "extended"):
             obs.append(disco_ob(tname, opc, fmt, tier))
     return obs
